@@ -530,6 +530,7 @@ func propC09(j *Job) {
 		j.Explore(fmt.Sprintf("AH/%s", b.name), abortDuringConnectScenario(b.a, b.b), Budget{}, nil)
 		j.Explore(fmt.Sprintf("AS/%s", b.name), abortDuringShutdownScenario(b.a, b.b), Budget{D: map[bool]int{false: 2, true: 3}[j.Thorough()]}, nil)
 		j.Explore(fmt.Sprintf("AS/%s/close-fails", b.name), abortDuringShutdownScenario(b.a, b.b, true), Budget{}, nil)
+		j.Explore(fmt.Sprintf("AS/%s/crossed", b.name), abortDuringShutdownScenario(b.a, b.b, false, true), Budget{D: 2}, nil)
 	}
 	// a blocking write made from the buffered-amount callback, ended by Close / Abort
 	for bi, b := range bases {
@@ -863,6 +864,18 @@ func abortDuringShutdownScenario(a, b epCfg, closeFails ...bool) *Scenario {
 			m.Sleep(300 * time.Millisecond)
 			if ts.Done || m.As[0].getState() != shutdownPending {
 				m.Failf("e1.base", "Shutdown is not waiting in SHUTDOWN-PENDING (done=%v state=%s)", ts.Done, getAssociationStateString(m.As[0].getState()))
+			}
+			if len(closeFails) > 1 && closeFails[1] {
+				// crossed: the peer's own SHUTDOWN arrives first (it does not acknowledge the data), the
+				// caller now waits in SHUTDOWN-RECEIVED
+				m.Go("shutdownB", func() {
+					ctx, cancel := context.WithTimeout(context.Background(), 20*time.Second)
+					defer cancel()
+					_ = m.As[1].Shutdown(ctx)
+				})
+				if !m.WaitUntil("crossed", 5*time.Second, func() bool { return m.As[0].getState() == shutdownReceived }) {
+					m.Failf("e1.base", "A did not reach SHUTDOWN-RECEIVED (state %s)", getAssociationStateString(m.As[0].getState()))
+				}
 			}
 			m.As[1].Abort("why")
 			ok := m.WaitUntil("shutdown-returned", 5*time.Second, func() bool { return ts.Done })
